@@ -210,8 +210,8 @@ def run_case(case, ctx):
                 got = {"t": "uncanonical:" + type(back).__name__}
             from vlib.xcanon import tree_diff as _td
 
-            # xdis.marsh writes floats in the text form (format version 0): NaN sign/payload is not carried (DESIGN 3.2)
-            if got != want and _td(want, got, nan_loose=True):
+            # plain values are written with binary floats: every bit of a NaN must come back
+            if got != want and _td(want, got, nan_loose=False):
                 ctx.violation("%s:dumps-roundtrip:%s" % (htag, cls), "marshal.loads(xdis.marsh.dumps(%s)) = %s" % (repr(v)[:60], repr(back)[:80]))
         else:
             mv = int(case["direction"][-1])
